@@ -43,16 +43,13 @@ def synth_behaviour(vec, bid, cfg):
 
 
 def split_walks(res):
-    """-simulate prints the edges of each behaviour in order; a behaviour starts at the initial state."""
-    walks, cur = [], []
-    for v in res.tag("VERIF_EDGE"):
-        e = v[0]
-        if e["f"]["n"] == 0 and cur:
-            walks.append(cur)
-            cur = []
-        cur.append(e["a"])
-    if cur:
-        walks.append(cur)
+    """-simulate: every behaviour prints the actions it took (history variable `path`) when it ends."""
+    seen, walks = set(), []
+    for v in res.tag("VERIF_PATH"):
+        k = vlib.canon(v[0])
+        if k not in seen and v[0]:
+            seen.add(k)
+            walks.append(v[0])
     return walks
 
 
@@ -78,7 +75,23 @@ def run_sdp(ctx, prop, configs, nwalk_q, nwalk_t, own_preds):
         if cfg in ("rtxorphan",):
             cfg = "default"
         beh.append(synth_behaviour(vec, len(beh), cfg))
-    ctx.log("%d simulated histories + %d synthetic-offer vectors" % (nwalks, len(vecs)))
+    # 4. exhaustive first-exchange direction matrix (DirMatrix.tla), under every configuration of the check
+    dm = vlib.tlc_model(ctx, "DirMatrix", "DirMatrix", workers=1, timeout=300)
+    ndm = 0
+    for v in [x[0] for x in dm.tag("VERIF_VEC")]:
+        for cfg in configs:
+            if cfg in ("rtxorphan", "manyext", "novideoB") and ctx.quick:
+                continue
+            steps = [{"op": "addTransceiverTrack" if v["otrack"] else "addTransceiver", "who": "A", "kind": v["kind"], "dir": v["odir"]}]
+            if v["adir"] != "none":
+                steps.append({"op": "addTransceiverTrack" if v["atrack"] else "addTransceiver", "who": "B",
+                              "kind": v["kind"], "dir": v["adir"]})
+            steps.append({"op": "negotiate", "who": "A"})
+            if v["back"]:
+                steps.append({"op": "negotiate", "who": "B"})
+            beh.append({"id": len(beh), "config": cfg, "steps": steps})
+            ndm += 1
+    ctx.log("%d simulated histories + %d synthetic-offer vectors + %d direction-matrix exchanges" % (nwalks, len(vecs), ndm))
     infile = vlib.write_json(os.path.join(ctx.work, "behaviours.json"), beh)
     trace = os.path.join(ctx.work, "trace.ndjson")
     binary = vlib.go_build(ctx, "sdp")
